@@ -421,8 +421,10 @@ def check_ops(rep: vlib.Reporter, rng: random.Random, n: int) -> bool:
     cases, obss = [], []
     dist = {"ops": {}, "errors": {0: 0, 1: 0, 2: 0, 3: 0}, "lengths": {}, "init_errors": 0, "unmodelled": 0}
     found = False
-    while len(cases) < n:
-        case = gen_sequence(rng)
+    corpus = [json.load(open(f))["case"] for f in sorted((vlib.CORPUS / P).glob("ops_*.json"))] if (vlib.CORPUS / P).exists() else []
+    dist["corpus_cases"] = len(corpus)
+    while len(cases) < n + len(corpus):
+        case = corpus[len(cases)] if len(cases) < len(corpus) else gen_sequence(rng)
         try:
             obs = run_sequence(case)
         except Unmodelled:
@@ -449,6 +451,7 @@ def check_ops(rep: vlib.Reporter, rng: random.Random, n: int) -> bool:
                     "error_kinds": {"none": dist["errors"][0], "ValueError": dist["errors"][1], "TypeError": dist["errors"][2],
                                     "other": dist["errors"][3]},
                     "sequence_lengths": dict(sorted(dist["lengths"].items())), "constructor_errors": dist["init_errors"],
+                    "corpus_cases_run_first": dist["corpus_cases"],
                     "disagreements": len(bad)})
     for i in bad[:5]:
         rep.finding("ops:" + json.dumps(cases[i])[:300],
